@@ -1,4 +1,6 @@
 """C06 - completion is immediate and final: nothing runs after complete()."""
+import logging
+
 from hypothesis import strategies as st
 
 from ECAgent.Core import Agent, Model, ModelCompleteError, System
@@ -37,7 +39,27 @@ def run_case(case):
     prios = [int(p) % 4 for p in case["systems"]][:6]
     if len(prios) < 1:
         raise InvalidCase("systems")
-    model = Model()
+    lg = case.get("logger", "default")
+    if lg == "custom":                     # a caller-supplied logger that inherits the root level (WARNING)
+        model = Model(logger=logging.getLogger("vf.c06.app"))
+    elif lg == "custom-debug":
+        custom = logging.getLogger("vf.c06.debug")
+        custom.setLevel(logging.DEBUG)
+        custom.propagate = False
+        if not custom.handlers:
+            custom.addHandler(logging.NullHandler())
+        model = Model(logger=custom)
+    else:
+        model = Model()
+        if lg == "quiet":
+            model.logger.setLevel(logging.ERROR)
+    try:
+        return _run(case, model, prios)
+    finally:
+        logging.getLogger("MODEL").setLevel(logging.INFO)
+
+
+def _run(case, model, prios):
     log, flags = [], []
     T = max(0, min(int(case.get("t", 0)), 12))
     outside = bool(case.get("outside"))
@@ -137,7 +159,7 @@ def run_case(case):
     pos = order.index(f"s{ci}")
     nontrivial = (not outside and pos < len(order) - 1 and len(kinds) >= 2)
     labels = ["outside" if outside else ("completer-first" if pos == 0 else ("completer-last" if pos == len(order) - 1 else "completer-middle")),
-              f"reach-{mode}"] + sorted(kinds)
+              f"reach-{mode}", f"logger-{case.get('logger', 'default')}"] + sorted(kinds)
     return {"nontrivial": nontrivial, "labels": labels}
 
 
@@ -150,4 +172,5 @@ def strategy(tier):
         "systems": st.lists(st.integers(0, 3), min_size=2, max_size=6),
         "completer": st.integers(0, 5), "t": wone_of(st.integers(0, 3), st.integers(0, 12)), "outside": st.sampled_from([False, False, False, True]),
         "reach": st.sampled_from(["single", "multi"]), "extra": st.integers(0, 3),
+        "logger": st.sampled_from(["default", "default", "custom", "quiet", "custom-debug"]),
         "after": sized_lists(after, 1, 12)})
